@@ -24,6 +24,11 @@ CHECKS = {
     text="For every corpus configuration and generated libraries the all-off run is compared with single-option, all-on and random combinations (all 31 in the thorough tier), the options being set at library level or on a random half of the individual declarations. Held = same files, identical comment-free token streams in C/C++/Fortran/Python/YAML outputs, and the option combination never makes Shroud fail.",
     note="Trusted: vf/oracles/strip.py tokenisers. json/log dumps are excluded (they record the options). Library-level literalinclude/literalinclude2 are left as upstream set them in both runs (excluded by the property).",
     design="DESIGN.md §2 C16"),
+ "C14": dict(
+    technique="metamorphic pairs of real Shroud runs on descriptions / command lines documented as equivalent; byte comparison of generated sources",
+    text="For generated libraries and every corpus configuration: a function-scoped option or format field set on library / block / class vs on each contained function (siblings outside the container left alone), inline +attributes vs attrs/fattrs, --option/--language vs YAML fields (bool, int and string values, both directions), declarations vs the same inside an empty block, and create_wrapper vs the command line. Held = both variants succeed and write byte-identical sources.",
+    note="Trusted: the curated list of function-scoped options/fields (vf/checks/c14.py). json/log dumps excluded (they record where an option was written). Class containers with member variables and F_this are outside the relation (class-generated helpers have no declaration to attach the setting to).",
+    design="DESIGN.md §2 C14"),
 }
 
 NOT_APPLICABLE = []
